@@ -6,11 +6,11 @@ from typing import List, Optional
 
 from ..collect import callee_is, run_paths
 from ..common import ast_text_parts, with_helpers, calls_in, construct, where
-from ..flow import NONE, contains, show
+from ..flow import NONE, contains, show, subterms
 from ..fold import Folder, NotConst
 from ..loader import AnalysisError, FuncInfo, Program, walk_shallow
 from ..report import Report
-from .cookie_common import DS, emitted, extract_writer
+from .cookie_common import DS, cookie_bytes_rule, emitted, extract_writer
 
 UTC_NAMES = {"datetime.timezone.utc", "datetime.UTC", "timezone.utc"}
 
@@ -80,7 +80,8 @@ def run(p: Program, rep: Report, tier: str) -> None:
         "separator, and is inverted by the reader's contract; plus the raw-path and empty-value side conditions. "
         "R16.2 __bytes__ encodes str(self) as ASCII. R16.3 API provenance: the datetime formatted with a literal "
         "'GMT' is produced by a UTC-aware constructor from time.time()+expires. R16.4 max-age is the argument "
-        "unchanged; delete_cookie passes expires=0 and max_age=0. NOT decided: multi-cookie interplay beyond the "
+        "unchanged; delete_cookie passes expires=0 and max_age=0. R16.5 the request's header mapping is built from the gateway's "
+        "header values unchanged (WSGI: the environ value; ASGI: its Latin-1 decoding), so the cookie reader sees the text that was sent. NOT decided: multi-cookie interplay beyond the "
         "separator argument, locale dependence of %a/%b."
     )
     rep.assume("http.cookies._unquote contract: unquotes only a value wrapped in double quotes; \\ooo with ooo in [0-3][0-7][0-7] -> chr; \\c -> c")
@@ -154,17 +155,15 @@ def run(p: Program, rep: Report, tier: str) -> None:
 
     # ------------------------------------------------------------------ R16.2
     cookie = p.cls(f"{DS}:Cookie")
-    b = cookie.methods.get("__bytes__")
-    if b is None:
-        rep.undecide("R16.2", "Cookie.__bytes__ vanished")
-    else:
+    kind_, b, node_, cons_, msg_ = cookie_bytes_rule(p)
+    if b is not None:
         rep.analysed(b.fq)
-        rets = [n for n in walk_shallow(b.node) if isinstance(n, ast.Return)]
-        txt = ast.unparse(rets[0].value) if rets else ""
-        if txt in ("str(self).encode('ascii')", "self.__str__().encode('ascii')", "str(self).encode('latin-1')", "str(self).encode('latin1')"):
-            rep.ok("R16.2", f"__bytes__ = {txt}; total because every emitted chunk is ASCII (R16.1)")
-        else:
-            rep.violation("R16.2", construct(b, text=txt), where(b), "__bytes__ is not the ASCII encoding of str(self)")
+    if kind_ == "ok":
+        rep.ok("R16.2", msg_)
+    elif kind_ == "undecided":
+        rep.undecide("R16.2", msg_)
+    else:
+        rep.violation("R16.2", construct(b, text=cons_), where(b), msg_)
 
     # ------------------------------------------------------------------ R16.3 / R16.4
     s = cookie.methods.get("__str__")
@@ -323,6 +322,66 @@ def run(p: Program, rep: Report, tier: str) -> None:
                 rep.violation("R16.1", construct(fn_, text=cons), where(fn_, node), msg)
     rep.require_instances("R16.3", 4)
     rep.require_instances("R16.4", 12)
+    _request_header_values(p, rep)
+
+
+LATIN1 = ("latin-1", "latin1", "latin_1", "iso-8859-1", "iso8859-1", "l1")
+
+
+def _request_header_values(p: Program, rep: Report) -> None:
+    """R16.5: the Cookie header text the reader parses is the header value the gateway handed over - character for
+    character (WSGI: the environ value itself; ASGI: its Latin-1 decoding). A value that is re-spaced, stripped of
+    characters or case-folded on the way into the Headers mapping no longer reads back as what was sent."""
+    for side in ("wsgi", "asgi"):
+        conn = p.cls(f"baize.{side}.requests:HTTPConnection")
+        fn = conn.methods.get("headers")
+        if fn is None:
+            rep.undecide("R16.5", f"{side}: HTTPConnection.headers vanished")
+            continue
+        rep.analysed(fn.fq)
+        try:
+            paths, _c, _i = run_paths(p, fn, conn)
+        except Exception as e_:
+            rep.undecide("R16.5", f"{side}: HTTPConnection.headers is not analysable ({e_})")
+            continue
+        rep.cfg_paths += len(paths)
+        for pa in paths:
+            if pa.exit != "return":
+                continue
+            v = pa.value
+            K = construct(fn, text="stored header text")
+            vals = None
+            if v[0] == "call" and v[1] == ("cls", f"{DS}:Headers") and len(v[2]) == 1:
+                a0 = v[2][0]
+                if a0[0] == "comp" and a0[2][0] == "tuple" and len(a0[2][1]) == 2:
+                    vals = [a0[2][1][1]]
+                elif a0[0] == "gen":
+                    # a private generator helper that yields the pairs: its yield statements are the elements
+                    try:
+                        gfn = p.func(a0[1])
+                        gpaths, _gc, _gi = run_paths(p, gfn, gfn.cls)
+                        rep.analysed(gfn.fq)
+                        ys = {e.a for gp in gpaths for e in gp.events if e.kind == "yield"}
+                        if ys and all(y[0] == "tuple" and len(y[1]) == 2 for y in ys):
+                            vals = [y[1][1] for y in ys]
+                    except Exception:
+                        vals = None
+            if not vals:
+                rep.undecide("R16.5", f"{side}: HTTPConnection.headers does not return Headers(<comprehension or generator of (name, value) pairs>): {show(v)[:80]}")
+                continue
+            for val in vals:
+                raw = val
+                if side == "asgi" and raw[0] == "call" and raw[1][0] == "attr" and raw[1][2] == "decode" and raw[2][:1] and raw[2][0][0] == "const" and str(raw[2][0][1]).lower() in LATIN1:
+                    raw = raw[1][1]
+                item_value = raw[0] == "unpack" and raw[2] == 1 and raw[1][0] == "elem"
+                if item_value and (side == "wsgi") == (raw is val):
+                    rep.ok("R16.5", f"{side}: each header value stored is {show(val)[:70]} - the gateway's value unchanged" + (" (Latin-1 decoded)" if side == "asgi" else ""))
+                elif any(isinstance(t, tuple) and len(t) == 3 and t[0] == "unpack" and t[2] == 1 for t in subterms(val)):
+                    rep.violation("R16.5", K, where(fn), f"{side}: the header value put into the request's Headers is {show(val)[:90]}, not the value the gateway handed over"
+                                  + (" decoded as Latin-1" if side == "asgi" else "") + ": a cookie value is altered before the cookie reader sees it (what was set does not read back)")
+                else:
+                    rep.undecide("R16.5", f"{side}: header value element of an unrecognised form: {show(val)[:80]}")
+    rep.require_instances("R16.5", 2)
 
 
 def _k(v) -> str:
